@@ -21,7 +21,7 @@ INVARIANT SliceInv
 INVARIANT Export
 {props}
 """
-PROPS = "PROPERTY TakeConserves\nPROPERTY RefusalIsNoOp\nPROPERTY TeeCopies"
+PROPS = "PROPERTY TakeConserves\nPROPERTY RefusalIsNoOp\nPROPERTY TeeCopies\nPROPERTY ReadOnce"
 
 ALIASES = {"limit": ["limit", "head", "first"], "skip": ["skip", "drop"], "tail": ["tail", "last"],
            "first_one": ["first_one", "one"], "last_one": ["last_one"], "view": ["values", "locations", "items", "pointers"],
@@ -79,7 +79,6 @@ def run_prefix(n: int, hist: List[Dict[str, Any]], k: int, salt: int) -> Tuple[L
                 else:
                     m = getattr(q, name)()
                     obs = {"k": "nothing", "ids": []} if m is None else {"k": "match", "ids": [m.obj - 9]}
-                del qs[h["q"]]
                 if last and (obs["k"] != exp["k"] or obs["ids"] != exp["ids"]):
                     bad.append(f"{name}:returned-{obs['k']}{obs['ids']}-expected-{exp['k']}{exp['ids']}")
             if exp["k"] == "valueError" and last:
@@ -160,7 +159,8 @@ def run(chk: Check, tier: str, seed: int) -> None:
     chk.rule = ("behaviours of MC_QueryIter.tla: all chains of limit/skip/tail/take/tee/first_one/last_one/view operations (aliases rotated by the replay) "
                 "with counts {-1,0,1,2,n,n+1} on any live query, exhaustively to length 3 (thorough 4) over lists of length 0..4 (6), random walks to "
                 "length 7 (10); replayed once per prefix; non-trivial = >=2 operations on a non-empty list; distinct by (n, chain)")
-    chk.assumptions += ["what first_one/one/last_one/views leave behind in the query is not specified by the property and not compared"]
+    chk.assumptions += ["'remaining' is read as single-pass: first_one/one consumes the match it returns, last_one and the views consume everything they read; "
+                        "the query stays usable and what it still holds is compared after every chain"]
 
 
 def replay_file(case: Dict[str, Any]) -> int:
